@@ -217,7 +217,15 @@ impl Exec {
             "bbs" => guard(|| bbs(&ctx.board)),
             "gen" => guard(|| gen(ctx)),
             "genl" => guard(|| genl(ctx)),
-            "genlx" => guard(|| genlx(ctx)),
+            "genlx" => {
+                // a panic in the middle of a make/unmake pair must not leave the harness's board changed
+                let saved = ctx.board.clone();
+                let r = guard(|| genlx(ctx));
+                if r == "PANIC" {
+                    ctx.board = saved;
+                }
+                r
+            }
             "att" => guard(|| att(ctx)),
             "verdict" => {
                 let r = guard(|| verdict(ctx, false));
